@@ -26,6 +26,7 @@ type ZReaderObj struct {
 	shortUsed bool
 	tailErr   bool // stream ends with a checksum / unexpected-EOF error instead of clean EOF
 }
+
 // LimitObj models *io.LimitedReader (concrete limit).
 type LimitObj struct {
 	r Iface
@@ -44,6 +45,7 @@ type ScannerObj struct {
 	pos    int
 	tok    []*Term
 	done   bool
+	err    Iface
 }
 
 func (x *Exec) readFrom(r Iface, dst Slice) (int, Iface) {
@@ -243,7 +245,7 @@ func init() {
 		if !s.loaded {
 			s.loaded = true
 			data, err := x.readAll(s.src)
-			_ = err // a read error ends scanning after the data read so far (Scanner.Err is never consulted by Goit)
+			s.err = err // a read error ends scanning after the data read so far; Scanner.Err reports it
 			s.data = data
 		}
 		if s.done || s.pos >= len(s.data) {
@@ -257,6 +259,7 @@ func init() {
 		}
 		if i-s.pos >= 64*1024 {
 			s.done = true // bufio.ErrTooLong
+			s.err = x.newErrS("bufio.Scanner: token too long", "ETOOLONG")
 			return st.False
 		}
 		tok := s.data[s.pos:i:i]
@@ -271,6 +274,7 @@ func init() {
 		}
 		return st.True
 	}
+	intrinsics["(*bufio.Scanner).Err"] = func(x *Exec, a []Value) Value { return a[0].(*ScannerObj).err }
 	intrinsics["(*bufio.Scanner).Text"] = func(x *Exec, a []Value) Value { return Str{a[0].(*ScannerObj).tok} }
 
 	intrinsics["io.ReadAll"] = func(x *Exec, a []Value) Value {
@@ -366,6 +370,13 @@ func init() {
 		}
 		if f.node.dir {
 			return Tuple{Iface{}, x.pathErr("read", f.path, "EISDIR")}
+		}
+		if !f.readChecked {
+			// zlib.NewReader reads the stream header: the handle's first read
+			f.readChecked = true
+			if e, fl := x.fallible("read", f.path); fl {
+				return Tuple{Iface{}, e}
+			}
 		}
 		if f.node.z != nil {
 			return Tuple{Iface{t: errorType, v: &ZReaderObj{payload: f.node.z.payload}}, nilErr}
